@@ -189,10 +189,12 @@ def build(tier):
         rw.simple("R13", r"(?P<recv>\w+\[[^\]]+\])\s*\.(?P<how>r?find)\((?P<arg>'(?:\\.|[^'])')\)\s*\.map\(\|(?P<v>\w+)\| (?P<body>[^)]*)\)\s*\.unwrap_or\((?P<d>[^;]*)\);",
                   lambda m: opt_chain(m) + ";"),
         rw.simple("R1", r"(\w+)\[([\w\.]+?)\.\.([\w\.]+)\]\.trim\(\)\.is_empty\(\)", r"vs_trim_is_empty(vS_slice(\1, \2, \3))"),
+        rw.simple("R1", r"(\w+)\[([\w\.]+?)\.\.([\w\.]+)\]\.ends_with\(('(?:\\.|[^'])')\)", r"vs_ends_with_char(vS_slice(\1, \2, \3), \4)"),
     ]
     TXT = "file_text(self, &position.vfs_path)"
     u.add_fn(UL, "get_line_position", impl="UnusedLiteralVisitor", wrap_impl="Visitor", rules=GLP_RULES, contract=Contract(
-        requires=[("position_in_file", "%s is Some ==> position.start_offset <= position.end_offset <= blen(%s->Some_0) && is_cb(%s->Some_0, position.start_offset as int) && is_cb(%s->Some_0, position.end_offset as int)" % (TXT, TXT, TXT, TXT))],
+        requires=[("position_in_file", "%s is Some ==> position.start_offset <= position.end_offset <= blen(%s->Some_0) && is_cb(%s->Some_0, position.start_offset as int) && is_cb(%s->Some_0, position.end_offset as int)" % (TXT, TXT, TXT, TXT)),
+                  ("line_and_column_in_file", "%s is Some ==> position.end_line_number <= blen(%s->Some_0) && position.end_column <= blen(%s->Some_0)" % (TXT, TXT, TXT))],
         ensures=[
             ("covers_literal", "%s is Some ==> r.start_offset <= position.start_offset && position.end_offset <= r.end_offset <= blen(%s->Some_0)" % (TXT, TXT)),
             ("on_boundaries", "%s is Some ==> is_cb(%s->Some_0, r.start_offset as int) && is_cb(%s->Some_0, r.end_offset as int)" % (TXT, TXT, TXT)),
